@@ -57,6 +57,28 @@ Fixpoint render_node (n : anode) : list N :=
   end.
 Definition aconf_render (d : list anode) : list N := flat_map render_node d.
 
+(* ---------------- well-formed words: the documented quoting rules ----------------
+   a bare word is non-empty, contains no blank and does not start with a quotation mark; a quoted word may contain
+   anything (its quotation mark and backslashes are written escaped; any other character may be written escaped too);
+   words are separated by blanks (space, tab), which may be omitted after a quoted word *)
+Definition wsc (c : N) : bool := (c =? 32) || (c =? 9).
+Definition hdn (l : list N) : N := match l with c :: _ => c | [] => 0 end.
+Definition bare_ok (t : list N) : bool :=
+  negb (match t with [] => true | _ => false end) && forallb (fun c => negb (wsc c) && negb (c =? 0)) t &&
+  negb (hdn t =? 39) && negb (hdn t =? 34).
+Definition is_bare (w : aword) : bool := match w_style w with Bare => true | _ => false end.
+Definition word_ok (w : aword) : bool :=
+  forallb wsc (w_gap w) &&
+  match w_style w with
+  | Bare => bare_ok (w_text w)
+  | Quoted q _ => ((q =? 39) || (q =? 34)) && forallb (fun c => negb (c =? 0)) (w_text w)
+  end.
+Fixpoint words_ok (prev_bare : bool) (ws : list aword) : bool :=
+  match ws with
+  | [] => true
+  | w :: r => word_ok w && (negb prev_bare || negb (match w_gap w with [] => true | _ => false end)) && words_ok (is_bare w) r
+  end.
+
 (* ---------------- what the option table declares ---------------- *)
 Definition take_count (take : N) : option N := let k := N.land take 255 in if k =? 255 then None else Some k.   (* None = any *)
 (* declared type of argument j >= 1: 1 int, 2 float, 3 bool, 0 string.  Bits 8.., 16.., 24.. for arguments 1..5; bits 13, 21, 29 for the rest *)
